@@ -12,6 +12,20 @@ import pipe
 
 
 # burst histories that are always run, each burst read in ONE read (recursive watch)
+# a directory removed while it is held open by someone else, then its path re-used: the new directory must be covered both
+# before and after the holder lets go (the kernel then sends the old watch's IN_DELETE_SELF / IN_IGNORED)
+HELD_HISTORIES = [
+    ([("mkdir", "W/a"), ("mkdir", "W/a/b"), ("mkdir", "O/n"), ("mkdir", "O/n/b"), ("mkdir", "O/n/b/d")],
+     [[("hold", "W/a/b")], [("rmtree", "W/a")], [("rename", "O/n", "W/a")], [("create", "W/a/b/x")], [("release", "W/a/b")],
+      [("create", "W/a/b/d/y")]]),
+    ([("mkdir", "W/a"), ("mkdir", "W/a/b")],
+     [[("hold", "W/a/b")], [("rmtree", "W/a")], [("mkdir", "W/a"), ("mkdir", "W/a/b"), ("mkdir", "W/a/b/d")], [("create", "W/a/b/x")],
+      [("release", "W/a/b")], [("create", "W/a/b/d/y")]]),
+    ([("mkdir", "W/a"), ("mkdir", "W/a/b")],
+     [[("hold", "W/a/b"), ("hold", "W/a")], [("rmtree", "W/a")], [("mkdir", "W/a")], [("mkdir", "W/a/b")], [("release", "W/a")],
+      [("create", "W/a/b/x")], [("release", "W/a/b")], [("create", "W/a/y")]]),
+]
+
 FIXED_BURSTS = [
     # two new top-level directories in one read, the first one populated before the reader gets to it
     ([], [[("mkdir", "W/p"), ("mkdir", "W/p/q"), ("create", "W/p/q/f"), ("mkdir", "W/r"), ("create", "W/r/g"), ("mkdir", "W/t")],
@@ -221,6 +235,13 @@ def run(res, tier, lean, prop="C01", proof_breaks=(), build_log=""):
         # a directory tree leaves the watched tree; while the library drops its watches the k-th inotify_rm_watch finds the
         # watch already gone (EINVAL): the emitter must survive and keep reporting
         plan += [("rmfault", k) for k in (1, 2, 3)]
+    if prop in ("C01", "C02", "C07"):
+        # a directory is removed while another process still holds it open: the kernel announces IN_DELETE at once but
+        # IN_DELETE_SELF / IN_IGNORED only when the holder lets go - meanwhile the library's tables still know the path
+        plan += [("held", k) for k in range(len(HELD_HISTORIES))]
+    if prop == "C07":
+        # the kernel's queue-overflow record (wd = -1) at the end of the k-th read: the reader must skip it and go on
+        plan += [("overflow", k) for k in ((1, 2, 3, 4) if thorough else (1, 3))]
     if prop in ("C01", "C02", "C03", "C07"):
         # histories in the regime of the theorem paced_run (one operation / file storm / nested creation burst per read)
         plan += [("paced", 0)] * (6 if thorough else 2)
@@ -242,6 +263,11 @@ def run(res, tier, lean, prop="C01", proof_breaks=(), build_log=""):
         if what is not None and what[0] == "rmfault":
             init_b = [("mkdir", "W/d"), ("mkdir", "W/d/dd"), ("mkdir", "W/d/dd/d"), ("mkdir", "W/a")]
             bursts = [[("rename", "W/d", "O/x")], [("create", "W/a/b")], [("create", "O/x/dd/a")]]
+        elif what is not None and what[0] == "held":
+            init_b, bursts = HELD_HISTORIES[what[1]]
+        elif what is not None and what[0] == "overflow":
+            init_b = [("mkdir", "W/d")]
+            bursts = [[("create", "W/a")], [("create", "W/d/b")], [("mkdir", "W/n")], [("create", "W/n/a"), ("write", "W/n/a")]]
         elif what is not None and what[0] in ("fault", "faultfile", "faultback"):
             init_b = [("mkdir", "W/d")]
             bursts = [[("mkdir", "W/n"), ("mkdir", "W/n/a"), ("mkdir", "W/n/b"), ("mkdir", "W/n/d"), ("mkdir", "W/n/dd"),
@@ -253,8 +279,14 @@ def run(res, tier, lean, prop="C01", proof_breaks=(), build_log=""):
         vanish = None
         rmf = None
         vfile = vback = False
+        ovf = None
+        held_run = False
         if what is not None and what[0] == "rmfault":
             rmf = what[1]
+        elif what is not None and what[0] == "overflow":
+            ovf = what[1]
+        elif what is not None and what[0] == "held":
+            held_run = True
         elif what is not None:
             vanish = what[1]
             vfile = what[0] == "faultfile"
@@ -266,7 +298,12 @@ def run(res, tier, lean, prop="C01", proof_breaks=(), build_log=""):
             small = False
         gate = (fixedb or r.random() < 0.7) and not small
         out = pipe.run_bursts(init_b, bursts, recursive=recursive, full=full, small_reads=small, vanish_at=vanish, rm_fault_at=rmf,
-                              gate_reads=gate, vanish_file=vfile, vanish_back=vback)
+                              gate_reads=gate, vanish_file=vfile, vanish_back=vback, overflow_at=ovf)
+        if held_run:
+            out["held"] = True
+            res.bump("histories_with_a_directory_removed_while_held_open")
+        if ovf is not None and out["overflows"]:
+            res.bump("queue_overflow_records_injected")
         if gate:
             res.bump("burst_histories_read_in_one_read")
         if rmf is not None and out["rm_faults"]:
@@ -326,7 +363,7 @@ def run(res, tier, lean, prop="C01", proof_breaks=(), build_log=""):
     # discovers entries is the listing order of the real file system)
     blines, bmeta = [], []
     for init_b, bursts, recursive, full, small, vanish, out in burst_runs:
-        if vanish is not None or out.get("rm_faults") or out["timeout"] or out["thread_errors"]:
+        if vanish is not None or out.get("rm_faults") or out["timeout"] or out["thread_errors"] or out.get("held"):
             continue
         applied = out["applied"][:len(out["per_op"])]
         blines.append((f"pipeburst {int(recursive)} {int(full)} I {len(init_b)} " + " ".join(pipe.op_token(o) for o in init_b) +
@@ -349,7 +386,15 @@ def run(res, tier, lean, prop="C01", proof_breaks=(), build_log=""):
                 res.bump("growth_bursts_replayed_in_model")      # the regime of burst_grow (mkdir -p + populate)
             if simple == "1":
                 res.bump("file_bursts_replayed_in_model" if recursive else "nonrecursive_bursts_replayed_in_model")
-            same = (realc == mevs) if simple == "1" else (sorted(realc.split(",")) == sorted(mevs.split(",")))
+            def unordered(evs_):
+                # the order in which a directory walk discovers entries is the listing order of the real file system, and
+                # the event queue drops an event equal to the one queued just before it: how often a DirModifiedEvent
+                # shows up therefore depends on that order (walk ... DirModified(d) followed by chmod d's DirModified(d)) -
+                # DirModified events are compared as a set, everything else as a multiset
+                l_ = evs_.split(",")
+                return (sorted(e_ for e_ in l_ if not e_.startswith("DirModifiedEvent:")),
+                        sorted({e_ for e_ in l_ if e_.startswith("DirModifiedEvent:")}))
+            same = (realc == mevs) if simple == "1" else (unordered(realc) == unordered(mevs))
             if not same:
                 bbad.append({"request": line, "burst_index": bi, "burst": ops_b, "simple": simple == "1",
                              "implementation": realc, "model": mevs, "one_record_per_read": small})
